@@ -11,8 +11,7 @@ class C02(SessionCheck):
     RULE = ('lock-step histories over the real Session.run send branch (3 transports x 14 profiles): 1-6 queued requests incl. non-ASCII text, '
             'every _transport_write answered with a random short write (1..n), full write, 0, -1 or an exception, SSH readiness patterns; '
             'the bytes accepted by the transport are decoded by an independent RFC 4742/6242 decoder and compared with the submitted '
-            'Payloads of 2^k and 2^k +- 1 octets; real sockets: a peer that stops reading in the middle of a 6 MB message; SSH: stderr output of the subsystem between requests. '
-            'messages; frame/writeLoop of the model compared with the code on random payloads; a real socket whose peer stops reading in the middle of a 6 MB message (the session must fail). Non-trivial = history >= 8 commands.')
+            'messages; frame/writeLoop of the model compared with the code on random payloads; a real socket whose peer stops reading in the middle of a 6 MB message (the session must fail). Payloads of 2^k and 2^k +- 1 octets; real sockets: a peer that stops reading in the middle of a 6 MB message; SSH: stderr output of the subsystem between requests. Non-trivial = history >= 8 commands.')
 
     def cases(self, rng, tier):
         out = SessionCheck.cases(self, rng, tier)
